@@ -11,6 +11,11 @@ CLAIMS = {
   "technique": "static analysis: SSA must/may lockset dataflow + CFG must-pass-through/guard-edge path queries + canonical expression shapes",
  },
 }
+CLAIMS["C32"] = {
+  "text": "Decides the provenance of every field of the work digest (work_package.C, GP 14.8), of the package specification (work_package.A, GP 14.16) and of the refine-output accounting (WorkReportCompute → I: running Σ of result sizes, item/result/gas pairing, bundle and hash parameters) by backward slicing of SSA values into canonical source terms compared with the specification table. Insensitive to temporaries, local names, statement order and loop style.",
+  "note": "Trusted: go/ssa, the canonical renderer (conversions between equal-width named types transparent; calls uninterpreted), the expected table transcribed from GP 14.8/14.16. Not decided: results of the PVM, erasure coding and Merkle functions that the fields are derived from.",
+  "technique": "static analysis: SSA backward-slice provenance (canonical expression shapes incl. Σ/append accumulation) vs specification table",
+}
 NOT_APPLICABLE = {
  "C15": "equality of a 32-byte hash with an independent bit-level reference over all entry sets; the only static handles are byte constants of the node encodings (a frozen fragment) — no structural clause that is not circular; sibling agreement of cached/uncached recursion is claimed under C16",
  "C30": "round-trip equality whose mechanism is a Rust Reed-Solomon crate behind cgo; no Rust analyser is installed and the Go side is a thin FFI wrapper with no decidable clause of the statement",
